@@ -174,6 +174,13 @@ std::vector<Verdict> judgeC16(const Case &c, const Result &ref,
     (void)c;
     std::vector<Verdict> v;
     const Result &r = rep.res;
+    // An execution in which an allocation was failed: the function is not specified to survive that (the
+    // unchanged tree dereferences NULL, an assert-enabled build aborts), so a crash is outside the clause and
+    // yields no verdict.  But a tree that does survive and REPORTS AN ERROR is bound by "when the function
+    // reports an error nothing is left allocated"; and one that survives and reports success must deliver the
+    // reference result.
+    const bool faulted = rep.heap.failed > 0;
+    if (faulted && r.status != CALL_RETURNED) return v;
     if (r.status == CALL_CRASHED) {
         v.push_back({"R1-crash",
                      "call crashed on the simulated heap (signal " +
@@ -191,7 +198,7 @@ std::vector<Verdict> judgeC16(const Case &c, const Result &ref,
                      std::string("function reported ") + h3ErrorName(r.rc) +
                          " but left blocks allocated",
                      0});
-    if (!r.sameAs(ref))
+    if (!r.sameAs(ref) && !(faulted && r.rc != 0))
         v.push_back({"R5-differs-from-default-allocator",
                      "result " + r.brief() +
                          " differs from default-allocator result " + ref.brief(),
